@@ -215,6 +215,17 @@ PROPS = {
         "exhaustive_part": {"quick": "every year 0001-9998 once", "thorough": "every year 0001-9998 three times"},
         "assumptions": TRUST,
     },
+    "C19": {
+        "technique": "TLA+ composition on the spec side (Conform.tla CliPointClause = parse . shift* . render over Text.tla and Ops.tla; CliDiffClause on the timeline; printed recurrences through the iterator state machine) + TLC trace validation of in-process CLI runs",
+        "level_text": "Argument vectors are built from generation records in every documented notation; main(argv) runs in-process with stdout, "
+                      "exit status and any escaping exception captured. TLC derives, from the same records, what must be printed: the input "
+                      "shifted by the offsets (exact, then months, then years) rendered in its own notation; for two date-times the printed "
+                      "duration d (or --as-total) must satisfy first + d = second on the timeline; a recurrence's printed lines, read back, "
+                      "must be the series under the calendar selected by --calendar / ISODATETIMECALENDAR; malformed arguments in every slot must give a non-zero exit with a message and no traceback.",
+        "drivers": ["c19"], "mc": [], "expect_ops": ["CliPoint", "CliDiff", "CliRec", "CliBad"],
+        "rule": "one case = one argument vector; all non-trivial (boundary dates, every notation, offsets of either sign incl. -P spellings)",
+        "assumptions": TRUST + ["DurationParser / TimePointParser read back the CLI's own output (validated by C07, C10)"],
+    },
     "C03": {
         "technique": "TLA+ calendar definition (Cal.tla) model-checked with TLC (+ Apalache lemmas) and TLC trace validation of every conversion row of the real helpers",
         "level_text": "Cal.tla is the proleptic definition; TLC checks it is self-consistent (inverse pairs, week rule, lengths) on every day "
